@@ -217,6 +217,48 @@ def der_models(tier):
     return out
 
 
+# ---- dotted names in every role --------------------------------------------------------------------------------
+# A component instance gives flat names inst.x; the generator mangles them to inst__x and the class template turns
+# '__' back into '.' for the SymPy symbol names.  The inner model has one variable of every role, uses time, a Python
+# builtin call, an imported call and (second variant) the derivative of its input; the instance name itself is taken
+# from the clash lists.
+DOTTED_INNER = ("model N\n  input Real u;\n  output Real y;\n  Real x;\n  parameter Real k = 2;\n  constant Real c = 3;\nequation\n"
+                "  der(x) = k * cos(time) - x * u;\n  y = abs(x) * c + {du} / time;\nend N;\n")
+DOTTED_INSTANCES_QUICK = ["n", "t", "self", "abs", "sin"]
+DOTTED_INSTANCES_MORE = ["time_", "x", "psi", "lambda", "sum", "eqs", "a_", "M"]
+
+
+def dotted_models(tier):
+    out = []
+    for inst, du in itertools.product(DOTTED_INSTANCES_QUICK + (DOTTED_INSTANCES_MORE if tier == "thorough" else []), ("u", "der(u)")):
+        text = DOTTED_INNER.format(du=du) + f"model M\n  N {inst};\n  N other;\n  Real zz;\nequation\n  der(zz) = {inst}.y - zz * time + other.x;\nend M;\n"
+        out.append((f"dotted[{inst}:{du}]", text, "M"))
+    return out
+
+
+# ---- the model itself lives in a package ----------------------------------------------------------------------
+PACKAGED_BODY = "  Real x;\n  Real y;\n  parameter Real k = 2;\nequation\n  der(x) = k * sin(time) - x;\n  y = abs(x) + cos(x) / k;\n"
+
+
+def packaged_models(tier):
+    return [("pkgclass[P.M]", "package P\nmodel M\n" + PACKAGED_BODY + "end M;\nend P;\n", "P.M"),
+            ("pkgclass[P.Q.M]", "package P\npackage Q\nmodel M\n" + PACKAGED_BODY + "end M;\nend Q;\nend P;\n", "P.Q.M")]
+
+
+# ---- equation shapes -------------------------------------------------------------------------------------------
+# Everything above writes `variable = expression`.  The generated entry is `lhs - (rhs)`, so what stands on the LEFT
+# matters too: sums, differences, products, quotients, powers, signs, literals, der(), calls and time on the left of
+# every kind of right-hand side.
+EQ_LHS = ["a + b", "a - b", "a * b", "a / b", "a ^ b", "-a", "-(a + b)", "-a - b", "0", "2.5", "der(x) + a", "der(x) * 2 - a", "-der(x)", "sin(a)",
+          "abs(a) - b", "time", "time - a", "(a - b) - c", "a - (b - c)", "a / (b / c)"]
+EQ_RHS = ["c", "c - d", "-c", "0", "der(x)", "c * time", "-(c - d)", "abs(c)"]
+
+
+def equation_shapes(tier):
+    rhs = EQ_RHS if tier == "thorough" else EQ_RHS[:5]
+    return [(l, r) for l in EQ_LHS for r in rhs]
+
+
 def pr(t):
     # der(x) prints as a call already
     return E.pr(t, "min")
@@ -363,7 +405,9 @@ def instantiate(src, cls, evaluate=True):
         ns = {}
         with sympy.evaluate(evaluate):
             exec(compile(src, "<generated>", "exec"), ns)
-            return ns[cls](), None
+            # a packaged model P.M cannot keep its dotted name as a Python class: accept the mangled or the short one
+            name = next((n for n in (cls, cls.replace(".", "__"), cls.replace(".", "_"), cls.split(".")[-1]) if n in ns), cls)
+            return ns[name](), None
     except Exception as e:
         return None, (type(e).__name__, str(e)[:120])
     finally:
@@ -600,18 +644,9 @@ def replay_objects(inst, idx, flat_of, pt, want_t):
 def replay(src, cls, idx, name_of, pt, want_t):
     """Execute the generated module with the real SymPy (solver call stubbed) and evaluate eq idx."""
     import sympy
-    import sympy.physics.mechanics as mech
-    from pymoca.backends.sympy import runtime
-    orig = runtime.OdeModel.compute_fg
-    runtime.OdeModel.compute_fg = lambda self: None
-    try:
-        ns = {}
-        exec(compile(src, "<generated>", "exec"), ns)
-        mobj = ns[cls]()
-    except Exception as e:
-        return {"exec_error": repr(e)[:200]}
-    finally:
-        runtime.OdeModel.compute_fg = orig
+    mobj, err = instantiate(src, cls)
+    if err:
+        return {"exec_error": "%s: %s" % err}
     expr = mobj.eqs[idx]
     t = mobj.t
     for p in equiv.perturbations(pt, 0):
@@ -648,6 +683,10 @@ def work(batch):
             cases = ["state-eq"] + [f"expr:{t}" for t in texts]
             check_module(col, "batch", text, "M", per_eq_cases=cases)
             col.sample({"equation": "y0 = " + texts[0]}, 1)
+        elif kind == "eqs":
+            text = "model M\n  Real a, b, c, d;\n  Real x;\nequation\n" + "".join(f"  {l} = {r};\n" for l, r in batch[1]) + "end M;\n"
+            check_module(col, "eqshape-batch", text, "M", per_eq_cases=[f"eqshape:{l} = {r}" for l, r in batch[1]])
+            col.sample({"equation": "%s = %s" % batch[1][0]}, 1)
         elif kind == "models":
             for cid, text, cls in batch[1]:
                 check_module(col, cid, text, cls)
@@ -705,9 +744,12 @@ def main():
     import sympy.physics.mechanics  # noqa: F401  (imported before the workers fork)
     from pymoca.backends.sympy import runtime  # noqa: F401  (pulls in scipy.integrate: seconds, once)
     ts = arith_trees(args.tier) + literal_trees(args.tier) + call_trees(args.tier)
-    fam = classification_models(args.tier) + name_models(args.tier) + name_role_models(args.tier) + callee_models(args.tier) + der_models(args.tier)
+    fam = (classification_models(args.tier) + name_models(args.tier) + name_role_models(args.tier) + callee_models(args.tier) + der_models(args.tier)
+           + dotted_models(args.tier) + packaged_models(args.tier))
+    shapes = equation_shapes(args.tier)
     items = [("models", fam[i:i + BATCH]) for i in range(0, len(fam), BATCH)]
     items += [("exprs", ts[i:i + BATCH]) for i in range(0, len(ts), BATCH)]
+    items += [("eqs", shapes[i:i + 2 * BATCH]) for i in range(0, len(shapes), 2 * BATCH)]
     items += [("model", "classify", CLASSIFY, "M"), ("model", "names", NAMES, "M"),
               ("model", "repo:Spring", open(REPO + "/test/models/Spring.mo").read(), "Spring"),
               ("model", "repo:Aircraft", open(REPO + "/test/models/Aircraft.mo").read(), "Aircraft")]
@@ -722,7 +764,7 @@ def main():
                                 "the generated module executed with the real SymPy (solver call stubbed): eqs entries as SymPy objects -> z3 (sympy2z3), "
                                 "symbols resolved through the objects in self.x / v / c / p / u / y"]
     cov["bounds"] = ("expression trees of depth <= 2 (thorough 3) over + - * / ^, unary minus / plus, der, sin/cos/tan, time, printed with the parentheses Modelica requires; "
-                     f"{len(call_trees(args.tier))} call shapes for each of abs (a Python builtin) / sin / cos / tan (module imports): signed, operator, literal, time, der() arguments, "
+                     f"{len(call_trees(args.tier))} call shapes ({len(call_trees(args.tier)) // len(CALLS)} for each of abs (a Python builtin) / sin / cos / tan (module imports)): signed, operator, literal, time, der() arguments, "
                      "the call as either operand of every operator, as base / exponent / divisor, nested in every other call" + (", under two operator levels" if args.tier == "thorough" else "") + "; "
                      f"{len(LITERALS_QUICK) + (len(LITERALS_MORE) if args.tier == 'thorough' else 0)} numeric literal spellings (1..18 significant digits, exponent forms, values whose repr uses exponent notation" + ("; integers beyond 2**53, the smallest subnormal and the largest double" if args.tier == "thorough" else "") + ") "
                      "alone / negated / as factor, divisor, subtrahend, exponent, call argument, next to der(); variable values unbounded reals; "
@@ -730,10 +772,14 @@ def main():
                      "in all 8x8 role combinations (state, state+output, output, plain, input, differentiated input = input+state, parameter, constant" + ("" if args.tier == "thorough" else "; quick: the differentiated input meets every role for the first name pair only") + ") and both declaration orders, plus one hand-written model; "
                      f"der(): {len(der_models(args.tier))} models applying der() to a plain variable / an output / an input in {len(DER_USES)} operand positions (lhs, factor, negated, call argument, power base, divisor, "
                      "twice, next to the variable's value, next to der() of a sibling) with an undifferentiated sibling of the same role declared after it" + (" or before it" if args.tier == "thorough" else " (inputs: or before it)") + "; "
-                     f"names: {len(NAME_SINGLES)} single names (Python builtins, the generator's clash list, names used by the generated module, underscores, Python keywords, self/sympy/mech) and "
+                     f"names: {len(NAME_SINGLES)} single names (Python builtins, the generator's clash list, names used by the generated module incl. OdeModel's attributes and the model's own class name, underscores, Python keywords, self/sympy/mech) and "
                      f"{len(NAME_PAIRS)} pairs name / name_ ; {len(name_role_models(args.tier))} models giving each of {len(name_role_models(args.tier)) // len(NAME_ROLES)} names every one of {len(NAME_ROLES)} roles in equations that use time "
                      "(factor, power base, call argument, alone) and a call; "
                      f"{len(callee_models(args.tier))} models with a variable spelled like a called function or its escaped name (f / f_ for abs, sin, cos, tan) as plain variable / parameter" + (" / state / input" if args.tier == "thorough" else "") + "; "
+                     f"{len(dotted_models(args.tier))} models with a component instance (flat names inst.x in the roles output / state / parameter / constant / plain, with and without a differentiated member) "
+                     f"whose instance name is taken from the clash lists; {len(packaged_models(args.tier))} models declared inside a package (dotted class name); "
+                     f"{len(equation_shapes(args.tier))} equations with a non-trivial LEFT side ({len(EQ_LHS)} shapes: sums, differences, products, quotients, powers, signs, literals, der(), calls, time) against "
+                     f"{len(EQ_RHS) if args.tier == 'thorough' else 5} right sides; "
                      "every generated module is compiled AND executed / instantiated with the real SymPy (solver call stubbed); every equation is proved twice: from the generated source text and from the "
                      "SymPy object the executed module built (automatic evaluation off, falling back to the evaluated object), with one SymPy object per variable across the lists and none equal to another variable's or to time")
     rep.assumptions += ["Python's ast module gives the precedence SymPy will see", "sin/cos/pow uninterpreted; divisors non-zero",
